@@ -70,6 +70,16 @@ def diff_variants():
         add('context:%d' % ci,
             ['@@ -1,2 +1,2 @@ ' + ctx, ' c', '-a', '+b',
              '@@ -7 +7,2 @@ ' + ctx, '-d', '+e', '+f'], 3, 2)
+    # hunks whose last (first, only) context line is empty or blank: the
+    # line is the single space / space + blanks, nothing to trim
+    add('blank-context-last', ['@@ -1,2 +1,2 @@', '-a', '+b', ' '], 1, 1)
+    add('blank-context-first', ['@@ -1,2 +1,2 @@', ' ', '-a', '+b'], 1, 1)
+    add('blank-context-runs', ['@@ -1,4 +1,5 @@', ' ', ' ', '-a', '+b', '+c',
+                               ' ', ' '], 2, 1)
+    add('whitespace-context-last', ['@@ -1,3 +1,3 @@', ' c', '-a', '+b',
+                                    '   ', '@@ -9,2 +9,2 @@', '-d', '+e',
+                                    ' \t'], 2, 2)
+    add('blank-payloads', ['@@ -1,2 +1,2 @@', '-', '-  ', '+', '+\t'], 2, 2)
     add('zero-sides', ['@@ -0,0 +1,2 @@', '+a', '+b', '@@ -5,2 +6,0 @@',
                        '-c', '-d'], 2, 2)
     add('omitted-counts', ['@@ -1 +1 @@', '-a', '+b'], 1, 1)
